@@ -111,22 +111,34 @@ func (d *streamDecoder) emit(v int) {
 // Strictness.  The model accepts exactly what the standard allows and
 // reports everything else as ErrInvalid, in particular:
 //   - codeword 0 and 242..255 in ASCII encodation (254 is only an unlatch
-//     inside C40/Text/X12; EDIFACT uses its own 6-bit unlatch);
+//     inside C40/Text/X12, where it is also accepted as the very last
+//     codeword of the symbol; EDIFACT uses its own 6-bit unlatch);
 //   - Upper Shift (235) not followed by a codeword 1..128, or pending at the
 //     end of a C40/Text segment or of the stream;
 //   - Macro codewords anywhere but in the first position;
 //   - C40/Text/X12 pairs whose value is outside 1..64000, C40/Text shift
 //     values without a character assignment;
-//   - a Base 256 length field that runs past the end of the symbol, or a
-//     two-byte length field that encodes a value below 250.
+//   - a Base 256 length that runs past the end of the symbol, or a two-byte
+//     length field whose second byte is 250 or more.
 //
 // ECI (241), Structured Append (233) and Reader Programming (234) give
 // ErrUnsupported.  What follows the first pad codeword is not examined.
 // A dangling C40/Text shift at the end of a segment is accepted (encoders pad
 // the last triplet with Shift 1).
 func DecodeStream(dataCodewords []byte) (string, error) {
+	text, _, err := DecodeStreamPad(dataCodewords)
+	return text, err
+}
+
+// DecodeStreamPad is DecodeStream that additionally reports padStart, the
+// index of the first pad codeword (129 read in ASCII encodation), or
+// len(dataCodewords) if the data runs to the end of the symbol.  An encoder's
+// output cw is correctly padded iff
+// bytes.Equal(cw, PadStream(cw[:padStart], len(cw))).
+func DecodeStreamPad(dataCodewords []byte) (text string, padStart int, err error) {
 	d := &streamDecoder{cw: dataCodewords}
 	trailer := ""
+	padStart = len(dataCodewords)
 	for d.remaining() > 0 {
 		c := int(d.cw[d.i])
 		d.i++
@@ -137,6 +149,7 @@ func DecodeStream(dataCodewords []byte) (string, error) {
 		case c <= 128:
 			d.emit(c - 1)
 		case c == cwPad:
+			padStart = d.i - 1
 			d.i = len(d.cw) // end of data
 		case c <= 229:
 			d.emit('0' + (c-130)/10)
@@ -186,7 +199,7 @@ func DecodeStream(dataCodewords []byte) (string, error) {
 			err = invalid("codeword %d in ASCII encodation at %d", c, d.i-1)
 		}
 		if err != nil {
-			return "", err
+			return "", 0, err
 		}
 	}
 	var sb strings.Builder
@@ -194,7 +207,7 @@ func DecodeStream(dataCodewords []byte) (string, error) {
 		sb.WriteRune(r)
 	}
 	sb.WriteString(trailer)
-	return sb.String(), nil
+	return sb.String(), padStart, nil
 }
 
 type c40Set int
@@ -251,13 +264,18 @@ func (d *streamDecoder) c40(set c40Set) error {
 		if d.remaining() == 0 {
 			return leave()
 		}
+		// An explicit unlatch.  This test comes before the "one codeword
+		// left" rule on purpose: 254 has no meaning in ASCII encodation, so
+		// a 254 in the very last position can only be an unlatch (encoders
+		// following "in all other cases unlatch, then pad" emit it when the
+		// data ends one codeword before the end of the symbol).
+		if d.cw[d.i] == cwUnlatch {
+			d.i++
+			return leave()
+		}
 		if d.remaining() == 1 {
 			// a single codeword left in the symbol is ASCII encoded,
 			// no unlatch required
-			return leave()
-		}
-		if d.cw[d.i] == cwUnlatch {
-			d.i++
 			return leave()
 		}
 		full := int(d.cw[d.i])<<8 | int(d.cw[d.i+1])
